@@ -436,7 +436,7 @@ fn write_evidence(prop: &str, tier: &str, seed: u64, agg: &Agg, wall: f64, viola
             "stubbed_components": ["OS scheduler (baton scheduler, one task at a time)", "std::thread::spawn / executor spawner", "wall clock (SystemTime)", "crossbeam tick / async-io Timer", "sync flavour: crossbeam-channel and select! (simulator channel)"],
         },
         "assumptions": [
-            "tasks interleave at lock, channel, wait-group, clock, coordination-flag, metrics-counter and capacity-cell operations under sequential consistency; races inside unsafe code and weak-memory effects are out of scope",
+            "tasks interleave at lock, channel (simulator channels in the sync flavour, the real async-channel behind pass-through wrappers in the async flavour), wait-group, clock, coordination-flag, metrics-counter and capacity-cell operations under sequential consistency; races inside unsafe code and weak-memory effects are out of scope",
             "sync flavour runs on a re-implementation of the crossbeam-channel contract (bounded FIFO, unbounded, rendezvous, tick, select!)",
             "parking_lot RwLock is modelled as writer-preferring (a queued writer blocks new readers); other fairness properties of the primitives are not modelled",
             "sampling, not enumeration: a clean batch is evidence, not proof"
